@@ -51,6 +51,10 @@ CHECKS = {
          'Bounded exhaustive verification of the bridge for 8 small formulas x all supported solver names / sameas values / installed sets / verdicts / models / answer layouts: every combination is visited (Confirmed over all paths) and yields the documented result or error, with no temporary file left.',
          'Trusted: the stubs of Popen/tempfile/os/open (a sound fake solver), CrossHair exhaustiveness accounting. Outside: real solvers, >3 variables.',
          'DESIGN.md section 3 C20'),
+ 'C09': ('CrossHair/z3 exploration of ALL outcomes of the random draws (random module replaced by a nondeterministic stub with lazily minted symbolic draws) through Shuffle, cnfshuffle and -T shuffle; exhaustive explicit-argument validation',
+         'Bounded exhaustive verification: for 12 small formulas x 8 switch combinations x 3 entry points every possible outcome of random.choice/shuffle is visited and the result is always one signed renaming plus one clause permutation; explicit arguments are accepted iff valid and applied exactly.',
+         'Trusted: the RNG stub contract, CrossHair exhaustiveness accounting, the plain witness search. Outside: larger formulas.',
+         'DESIGN.md section 3 C09'),
 }
 NA = {}
 
